@@ -1,6 +1,6 @@
 (* C20 — stand-alone array helpers agree with their definitions.  Statements only. *)
 From Coq Require Import List ZArith Bool.
-From GL Require Import Lib.Arr Lib.Blocks Model.Dom Model.Scalar Model.Nanops Spec.Defs Proofs.NanopsProofs
+From GL Require Import Lib.Arr Lib.Blocks Model.Dom Model.Scalar Model.Nanops Spec.Defs Spec.Exec Proofs.NanopsProofs Proofs.NanopsExt Model.Helpers Proofs.HelperProofs Proofs.MonoProofs
   Proofs.GenTie Gen.ReductionOpsGen.
 Import ListNotations.
 Open Scope Z_scope.
@@ -15,6 +15,29 @@ Theorem C20_nansum_int nullv arr n : (0 < n)%nat ->
 Proof. exact (nansum_any_threads _ (zops_laws false nullv) (zops_never_null_closed nullv) arr n). Qed.
 Print Assumptions C20_nansum_int.
 
+(* 1b. nan-max / nan-min: for every number of worker threads the maximum (minimum) of the non-null elements,
+      the null marker if there is none — all-null pieces and the empty pieces of "more threads than
+      elements" contribute a null that the second stage skips *)
+Theorem C20_nanmax_float arr n : (0 < n)%nat -> nan_reduce fops NMax arr n = max_exec fops (nonnull fops arr).
+Proof. exact (nanmax_any_threads fops fops_laws fops_null_unique eq_refl arr n). Qed.
+Theorem C20_nanmin_float arr n : (0 < n)%nat -> nan_reduce fops NMin arr n = min_exec fops (nonnull fops arr).
+Proof. exact (nanmin_any_threads fops fops_laws fops_null_unique eq_refl arr n). Qed.
+(* int64 / timestamps through the numba is_null, which reads -2^63 as null *)
+Theorem C20_nanmax_int arr n : (0 < n)%nat -> nan_reduce (zops true 0) NMax arr n = max_exec (zops true 0) (nonnull (zops true 0) arr).
+Proof. exact (nanmax_any_threads _ (zops_laws true 0) (zops_null_unique true 0) eq_refl arr n). Qed.
+Theorem C20_nanmin_int arr n : (0 < n)%nat -> nan_reduce (zops true 0) NMin arr n = min_exec (zops true 0) (nonnull (zops true 0) arr).
+Proof. exact (nanmin_any_threads _ (zops_laws true 0) (zops_null_unique true 0) eq_refl arr n). Qed.
+Print Assumptions C20_nanmax_float.
+Print Assumptions C20_nanmin_float.
+Print Assumptions C20_nanmax_int.
+Print Assumptions C20_nanmin_int.
+
+(* 1c. the sum of squares behind nanvar / nanstd, for every number of threads *)
+Theorem C20_nansumsq_float arr n : (0 < n)%nat ->
+  nan_reduce fops NSumSquare arr n = sum_list fops (map (sq fops) (nonnull fops arr)).
+Proof. exact (nansumsq_any_threads fops fops_laws fops_sum_closed arr n). Qed.
+Print Assumptions C20_nansumsq_float.
+
 (* 2. the split of the array among the threads loses and duplicates nothing *)
 Theorem C20_split {A} (l : list A) k : (0 < k)%nat -> concat (array_split l k) = l.
 Proof. exact (array_split_concat l k). Qed.
@@ -25,6 +48,27 @@ Theorem C20_dot cols b nrows row : (row < nrows)%nat ->
   get 0 (nb_dot (zops false 0) Z.mul cols b nrows) row = dot_spec cols b row.
 Proof. exact (nb_dot_is_matrix_vector_product cols b nrows row). Qed.
 Print Assumptions C20_dot.
+
+(* 3b. the boolean-frame labeller: the integer mask of a row (sum of bit * 2^col, any number of columns) decodes
+       to exactly the row's true columns; equal masks <=> equal rows; the mask fits the signed type chosen for it *)
+Theorem C20_labels_name_exactly_the_true_columns bits :
+  mask_labels (length bits) (row_mask bits) = filter (fun i => nth i bits false) (seq 0 (length bits)).
+Proof. exact (mask_labels_are_true_columns bits). Qed.
+Theorem C20_equal_masks_equal_rows b1 b2 : length b1 = length b2 -> row_mask b1 = row_mask b2 -> b1 = b2.
+Proof. exact (fun Hl E => encode_inj b1 b2 Hl (eq_trans (eq_sym (row_mask_is_encode b1)) (eq_trans E (row_mask_is_encode b2)))). Qed.
+Theorem C20_mask_fits bits w : min_bits (length bits) = Some w -> 0 <= row_mask bits < 2 ^ (w - 1).
+Proof. exact (mask_fits bits w). Qed.
+Print Assumptions C20_labels_name_exactly_the_true_columns.
+Print Assumptions C20_equal_masks_equal_rows.
+Print Assumptions C20_mask_fits.
+
+(* 3c. the binning helper: with c = searchsorted(sorted bins, x): bins[c-1] < x <= bins[c] (x <= bins[0] for the
+       first label, x > bins[-1] for the last): the printed bounds of label c contain x *)
+Theorem C20_bin_contains bins x c : nondec bins -> c = Z.to_nat (bin_code bins x) ->
+  (forall b, nth_error bins c = Some b -> x <= b) /\
+  (forall b, (0 < c)%nat -> nth_error bins (c - 1) = Some b -> b < x) /\ (c <= length bins)%nat.
+Proof. exact (bin_contains bins x c). Qed.
+Print Assumptions C20_bin_contains.
 
 (* 4. Tie B: the binary reducers are the ones in /repo's util.NumbaReductionOps on this run *)
 Theorem C20_reducers_are_the_source's :
@@ -40,5 +84,6 @@ Print Assumptions C20_reducers_are_the_source's.
 
 Example C20_example :
   nan_reduce (zops true 0) NMax [3; MIN_INT; 7; 1] 8 = 7 /\ nan_reduce (zops true 0) NSum [3; MIN_INT; 7; 1] 3 = 11 /\
-  nb_dot (zops false 0) Z.mul [[1; 2]; [3; 4]] [10; 100] 2 = [310; 420].
+  nb_dot (zops false 0) Z.mul [[1; 2]; [3; 4]] [10; 100] 2 = [310; 420] /\
+  mask_labels 3 (row_mask [true; false; true]) = [0; 2]%nat /\ bin_code [5; 10; 15] 10 = 1 /\ bin_code [5; 10; 15] 11 = 2.
 Proof. repeat split; vm_compute; reflexivity. Qed.
